@@ -59,6 +59,7 @@ class FuncEffects:
         self.mutated_params = set()
         self.returns_fresh = None
         self._origin_cache = {}
+        self.inner_params = set()
         self._collect()
 
     # -------------------------------------------------------------- collection
@@ -66,7 +67,16 @@ class FuncEffects:
         f = self.f
         for node in ast.walk(f.node):
             if isinstance(node, (ast.FunctionDef, ast.AsyncFunctionDef, ast.Lambda)) and node is not f.node:
-                raise AnalysisError(f"{f.where}: nested function/lambda at line {node.lineno} is outside the fragment")
+                # a closure: its body is scanned as part of the enclosing function; its own parameters are treated like
+                # parameters (conservative: a store through them is a store to caller-visible state)
+                if isinstance(node, ast.AsyncFunctionDef):
+                    raise AnalysisError(f"{f.where}: async function at line {node.lineno} is outside the fragment")
+                if not isinstance(node, ast.Lambda):
+                    self.assigns.setdefault(node.name, []).append(("fresh", None))
+                a = node.args
+                for arg in a.posonlyargs + a.args + a.kwonlyargs + ([a.vararg] if a.vararg else []) + ([a.kwarg] if a.kwarg else []):
+                    self.inner_params.add(arg.arg)
+                continue
             if isinstance(node, ast.Assign):
                 for t in node.targets:
                     self._bind_target(t, ("expr", node.value))
@@ -101,6 +111,8 @@ class FuncEffects:
         if name in seen:
             return FRESH      # cyclic definitions contribute nothing new
         outs = set()
+        if name in self.inner_params and name not in self.params:
+            outs.add(PARAM)
         if name in self.params:
             is_first = self.params and name == self.params[0] and self.f.cls is not None and self.f.kind != "staticmethod"
             if is_first and self.f.kind == "classmethod":
